@@ -142,3 +142,33 @@ def rules(t, *a, **kw):
     out = _rules_C20_w6(t, *a, **kw)
     out.append(W6.client_refresh_total(t, "C20.l"))
     return out
+
+
+def disconnect_emits(t, rid):
+    """DISCONNECT => DATAGRAM: a disconnect decided by the application ends the session on the peer too only if the peer is told: every path
+    through NetcodeClient::disconnect (which makes the client Disconnected whatever state it was in - the server may already hold a session
+    while the client is still waiting for the first keep-alive) seals a Disconnect packet; the server's disconnect(id) does so for every
+    client it removes from the table."""
+    r = RuleResult(rid, "every path through NetcodeClient::disconnect seals a Disconnect packet (also before the handshake completed); NetcodeServer::disconnect seals one for the client it removes", floor=0)
+    f = t.fn("NetcodeClient::disconnect")
+    enc = [c for c in t.calls(r"Packet.*::encode$", f) if "Disconnect" in fmt(t.arg(c, 0))]
+    if not enc: r.samples.append("NetcodeClient::disconnect: encode of Packet::Disconnect not resolved: not decided")
+    else:
+        r.site(enc[0], "client")
+        ok, w = must_pass(f, (0, -1), {pos(x) for x in enc})
+        if not ok: r.bad("client|no-datagram", enc[0], f"NetcodeClient::disconnect can return (through bb{w}) without sealing a Disconnect packet: the client is Disconnected, the server keeps the session (connected in both server tables, no ClientDisconnected event) until its timeout")
+    g = t.fn("NetcodeServer::disconnect")
+    enc = [c for c in t.calls(r"Packet.*::encode$", g) if "Disconnect" in fmt(t.arg(c, 0))]
+    takes = [c for c in t.calls(r"Option.*::take$", g) if "clients" in fmt(t.arg(c, 0))]
+    for c in takes:
+        r.site(c, "server")
+        ok, w = must_pass(g, pos(c), {pos(x) for x in enc})
+        if enc and not ok: r.bad("server|no-datagram", c, f"NetcodeServer::disconnect removes a client and can return (through bb{w}) without sealing a Disconnect packet for it")
+    return r
+
+
+_rules_C20_w8 = rules
+def rules(t, *a, **kw):
+    out = _rules_C20_w8(t, *a, **kw)
+    out.append(disconnect_emits(t, "C20.m"))
+    return out
